@@ -1,11 +1,26 @@
-"""Registry: property id -> harnesses (see run_check.py)."""
+"""Registry: property id -> harnesses (see run_check.py).  One JSON spec per property in harness/<ID>.json:
+{"explanation": "...", "assumptions": [...], "harnesses": [{"name": "h_C11", "sources": ["harness/h_C11.c", "$ENG"], "variant": "asan",
+  "wrap": ["GetNProcessor"], "workers": 16, "deadline": {"quick": 150, "thorough": 1200}, "args": {"quick": [], "thorough": []}, "tiers": ["quick","thorough"]}]}
+"$ENG" expands to the engine sources; "$RNG" / "$THREADS" inside "wrap" expand to the usual symbol lists."""
+import json, glob, os
+HERE = os.path.dirname(os.path.abspath(__file__))
 RNG_WRAPS = ["srand_", "rand_", "randInt", "randDouble"]
 THREAD_WRAPS = ["pthread_create", "pthread_join", "pthread_exit"]
-ENG = ["engine/vx.c"]
+ENG = ["engine/vx.c", "engine/vnum.c"]
 
-CHECKS = {
-    "SELFTEST": {
-        "explanation": "engine self test: planted oracle failure, planted crash, planted hang",
-        "harnesses": [{"name": "h_selftest", "sources": ["harness/h_selftest.c"] + ENG, "workers": 4}],
-    },
-}
+
+def _expand(lst, table):
+    out = []
+    for x in lst:
+        out += table.get(x, [x])
+    return out
+
+
+CHECKS = {}
+for f in sorted(glob.glob(os.path.join(HERE, "harness", "*.json"))):
+    pid = os.path.basename(f)[:-5]
+    spec = json.load(open(f))
+    for h in spec["harnesses"]:
+        h["sources"] = _expand(h.get("sources", []), {"$ENG": ENG})
+        h["wrap"] = _expand(h.get("wrap", []), {"$RNG": RNG_WRAPS, "$THREADS": THREAD_WRAPS})
+    CHECKS[pid] = spec
